@@ -957,6 +957,28 @@ func c01upRunCached(cs string) string {
 	return c01upRun(cs)
 }
 
+// Component `uprecords` (C08, C02): every transport kind delivers the records of a valid reply as the server sent
+// them (address and ttl; the DoH servers answer like an HTTP cache, with an `Age` beyond the ttl): the `valid`
+// cases of `upreply`, three probes each.
+func c01upRecordsGen(r *rand.Rand, thorough bool, emit func(c, cat string)) {
+	adv := adversarial()
+	rounds := 1
+	if thorough {
+		rounds = 4
+	}
+	for i := 0; i < rounds; i++ {
+		for _, tr := range []string{"tcp", "tls", "tcp+pipeline", "tls+pipeline", "quic"} {
+			emit(fmt.Sprintf("tr=%s sc=%s dl=2500 n=3", tr, c01upStreamFixed(r, adv, tr == "quic")[0][1]), tr+"/valid")
+		}
+		emit(fmt.Sprintf("tr=udp sc=%s dl=2500 n=3", c01upUDPFixed(r, adv)[0][1]), "udp/valid")
+		for _, tr := range []string{"http", "https", "h3"} {
+			f := c01upDoHFixed(r, adv, tr)
+			emit(fmt.Sprintf("tr=%s sc=%s dl=2500 n=3", tr, f[i%2][1]), tr+"/"+f[i%2][0])
+		}
+	}
+}
+
 func init() {
 	register("upreply", &component{gen: c01upGen, run: c01upRunCached})
+	register("uprecords", &component{gen: c01upRecordsGen, run: c01upRun})
 }
